@@ -88,7 +88,7 @@ Err(s) == [res |-> Nil, tr |-> OpenTR, err |-> s]
 \* getTimeRange: the operand must reduce to a time / duration / integer literal
 GetTimeRange(op, lit) ==
   IF lit.k # "TLit" THEN Err("incompatible")
-  ELSE IF lit.f \in {"rfc", "dt", "date", "now", "intm", "intp", "rfcm", "rfcp", "revrfc", "revdt", "revint"} /\ ~LitInRange(lit.i) THEN Err("out-of-range")
+  ELSE IF lit.f \in {"rfc", "rfcfar", "dt", "date", "now", "intm", "intp", "rfcm", "rfcp", "revrfc", "revdt", "revint"} /\ ~LitInRange(lit.i) THEN Err("out-of-range")
   ELSE LET v == lit.i IN
        CASE op = ">"  -> Res(Nil, [min |-> Shift(v, 1), max |-> Open])
          [] op = ">=" -> Res(Nil, [min |-> v, max |-> Open])
